@@ -327,3 +327,186 @@ def c04_lemmas(ctx):
     ctx.ensure("lemma file compiles with Lean 4 + Mathlib without errors, sorry, axioms or admits: " + res["output"][:300], res["ok"])
     want = {"mass_step", "mass_solve", "affine_mix", "total_divergence_zero", "multiplier_zero", "quadrature_lower_bound", "schur_full_system"}
     ctx.ensure("all lemmas the claims refer to are present", want <= set(res["theorems"]))
+
+
+# ---- the real iterations on symbolic data (back end H) ---------------------------------------------------------------------------
+#
+# C04.step runs the REAL WassersteinDistanceNewton._solve / WassersteinDistanceBregman._solve (and below them the real residual, jacobian,
+# _update_regularization, _shrink, linear_solve, eliminate_flux, eliminate_lagrange_multiplier, compute_flux_update, AndersonAcceleration)
+# on a symbolic mass difference.  Three things are abstracted, each by a contract that is proved or validated elsewhere:
+#   * the factorisation  splu(M).solve(b)  ->  some x with M x = b                          (assumed; direct back end)
+#   * the mobility       _compute_face_weight(flux) -> ANY positive weights w, and 1 / w   (proved by C04.face_weight for every mobility mode)
+#   * the cost           l1_dissipation(flux) -> an uninterpreted function of the flux     (so "distance == cost of the returned flux" is
+#                                                                                            checked for every cost functional)
+#   * the least squares  scipy.linalg.lstsq(A, b)[0] -> ANY coefficient vector             (Anderson mixing with arbitrary coefficients)
+
+from vf import stubs as _stubs  # noqa: E402
+from vf import symsparse  # noqa: E402
+from vf.sym import Sym, lift  # noqa: E402
+
+
+def lstsq_factory(ctx):
+    def lstsq(A, b, *a, **k):
+        A = np.asarray(A)
+        ctx.stub_used("scipy.linalg.lstsq(A, b)[0]: SOME vector of length A.shape[1] (arbitrary mixing coefficients; the least-squares property is not used)")
+        n = ctx.__dict__.setdefault("lstsq_calls", 0)
+        ctx.__dict__["lstsq_calls"] = n + 1
+        g = np.array([ctx.real(f"gamma{n}_{j}", sample=(-1.0, 1.0)) for j in range(A.shape[1])], dtype=object)
+        return g, None, None, None
+    return lstsq
+
+
+STEP_STUBS = dict(symsparse.stubs())
+STEP_STUBS["sp.linalg.lstsq"] = lstsq_factory
+STEP_STUBS["hmean"] = _stubs.hmean_stub
+
+
+def _abstract_mobility_and_cost(ctx, w):
+    import z3
+    nf = int(w.grid.num_faces)
+    st = {"fw": 0}
+
+    def face_weight(flat_flux):
+        k = st["fw"]
+        st["fw"] += 1
+        fw = np.array([ctx.real(f"fw{k}_{i}", pos=True, sample=(0.1, 5.0)) for i in range(nf)], dtype=object)
+        return fw, 1 / fw
+    w._compute_face_weight = face_weight
+    L1 = z3.Function("l1_dissipation", *([z3.RealSort()] * nf), z3.RealSort())
+
+    def l1(flat_flux):
+        args = [lift(v) for v in flat_flux]
+        args = [z3.ToReal(a) if a.is_int() else a for a in args]
+        return Sym(L1(*args))
+    w.l1_dissipation = l1
+    return l1
+
+
+def _step_cases(tier):
+    out = []
+    def add(**k):
+        d = dict(shape=(3,), method="newton", form="full", num_iter=2, aa=0, fault=-1, start="darcy", adaptive=False, target="linear_solve")
+        d.update(k)
+        out.append(d)
+    shapes = [(3,), (2, 2)] if tier == "quick" else [(3,), (4,), (2, 2), (3, 2), (1, 3), (2, 1, 2)]
+    for s in shapes:
+        for m in ("newton", "bregman"):
+            for f in ("full", "pressure"):
+                for a in (0, 2):
+                    add(shape=s, method=m, form=f, aa=a)
+            add(shape=s, method=m, form="flux_reduced")
+    for m in ("newton", "bregman"):
+        add(method=m, num_iter=3)                                     # the stopping criteria are evaluated: converged and non-converged paths
+        add(method=m, num_iter=3, form="pressure", aa=2)
+        for fault in (1, 2):
+            add(method=m, form="pressure", fault=fault, shape=(2, 2))     # an inner linear solve fails at iteration fault - 1 (2-D: the flux does change between iterates)
+            add(method=m, form="full", aa=2, fault=fault, shape=(2, 2))
+            add(method=m, form="pressure", fault=fault + (1 if m == "newton" else 0), target="l1_dissipation", shape=(2, 2))      # the cost evaluation fails after the iterate was updated
+        add(method=m, form="full", aa=2, fault=1, target="anderson", shape=(2, 2))                                             # the mixing step fails
+    for s in shapes[:2] if tier == "quick" else shapes:
+        for f in ("full", "pressure"):
+            add(shape=s, method="newton", form=f, num_iter=1, start="any-state")   # induction step: one iteration from ANY admissible iterate
+    add(method="bregman", adaptive=True, form="pressure")
+    add(method="bregman", adaptive=True, form="full", shape=(2, 2))
+    if tier != "quick":
+        for s in shapes:
+            for m in ("newton", "bregman"):
+                add(shape=s, method=m, num_iter=3, form="pressure")
+    return out
+
+
+@ob("C04.step", cases=_step_cases, mods=["darsia.measure.wasserstein", "darsia.utils.fv", "darsia.utils.andersonacceleration"], stubs=STEP_STUBS, funcs=FUNCS + [
+    "darsia.measure.wasserstein:WassersteinDistanceNewton.residual", "darsia.measure.wasserstein:VariationalWassersteinDistance.optimality_conditions",
+    "darsia.measure.wasserstein:WassersteinDistanceBregman._shrink", "darsia.measure.wasserstein:VariationalWassersteinDistance.eliminate_flux",
+    "darsia.measure.wasserstein:VariationalWassersteinDistance.eliminate_lagrange_multiplier", "darsia.measure.wasserstein:VariationalWassersteinDistance.compute_flux_update",
+    "darsia.utils.andersonacceleration:AndersonAcceleration.__call__"],
+    samples=(1, 2), budget={"timeout_ms": 30000, "paths": 64, "decide_ms": 1500, "arith_solver": 2, "wall_s": 400}, tol=1e-7,
+    assumes=["splu(M).solve(b) returns x with M x = b exactly (direct back end)",
+             "sparse-matrix model vf/symsparse.py (validated by C08.dep_sparse)",
+             "mobility abstracted: _compute_face_weight returns arbitrary positive weights and their reciprocals (contract proved by C04.face_weight)",
+             "cost abstracted: l1_dissipation is an uninterpreted function of the flux",
+             "scipy.linalg.lstsq returns an arbitrary coefficient vector (Anderson mixing coefficients unconstrained)"],
+    cite="the returned flux satisfies the discrete mass balance ..., the reported distance is the transport cost of exactly that flux ...; if an inner step fails at any "
+         "iteration the result is flagged non-converged and still describes the last valid iterate",
+    note="the real _solve of both methods executed on a symbolic mass difference (all data, every positive mobility, every cost functional, every Anderson coefficient); per grid "
+         "shape and iteration count <= 3; start='any-state' is the induction step (one Newton iteration from an arbitrary iterate that satisfies balance + pin), which together with the "
+         "skeleton VCs of C04.flag covers every num_iter")
+def c04_step(ctx, shape, method, form, num_iter, aa, fault, start, adaptive, target):
+    grid, h = grid_of(shape)
+    opts = base_options(formulation=form, linear_solver="direct", num_iter=num_iter, aa_depth=aa, tol_residual=2.0 ** -10, tol_increment=2.0 ** -10, tol_distance=2.0 ** -10)
+    if adaptive:
+        opts["bregman_update"] = lambda it: it == 1
+    w = solver(method, grid, opts)
+    nf, nc = int(grid.num_faces), int(grid.num_cells)
+    f = ctx.array("f", (nc - 1,), sample=(-1.0, 1.0))
+    f = np.concatenate([f, [-sum(f)]])          # equal masses: the difference has zero mean
+    l1 = _abstract_mobility_and_cost(ctx, w) if ctx.sym else w.l1_dissipation
+    st = None
+    if fault >= 0 and target != "anderson":
+        st = _inject(w, target, fault)
+    elif fault >= 0:
+        st = {"n": 0, "hit": False}
+        real_a = w.anderson
+
+        class _A:
+            def __call__(self, *a, **k):
+                i = st["n"]
+                st["n"] += 1
+                if i == fault:
+                    st["hit"] = True
+                    raise Fault("injected failure of the Anderson step")
+                return real_a(*a, **k)
+        w.anderson = _A()
+    if start == "any-state" and ctx.sym:
+        real_ls = w.linear_solve
+        calls = {"n": 0}
+        Mf = w.mass_matrix_cells.dot(f)
+
+        def first_any(matrix, rhs, *a, **k):
+            calls["n"] += 1
+            if calls["n"] > 1:
+                return real_ls(matrix, rhs, *a, **k)
+            x0 = ctx.array("x0", (nf + nc + 1,), sample=(-1.0, 1.0))
+            bal0 = w.div.dot(x0[:nf]) - Mf
+            for c in range(nc):
+                ctx.assume(eq(bal0[c] - (x0[-1] if c == w.constrained_cell_flat_index else 0.0), 0.0))
+            ctx.assume(eq(x0[nf + w.constrained_cell_flat_index], 0.0))
+            return x0, {"time_setup": 0.0, "time_solve": 0.0}
+        w.linear_solve = first_any
+    with warnings.catch_warnings():
+        warnings.simplefilter("ignore")
+        dist, sol, info = w._solve(f.copy())
+    flux = sol[w.flux_slice]
+    bal = w.div.dot(flux) - w.mass_matrix_cells.dot(f)
+    for c in range(nc):
+        ctx.ensure(f"mass balance in cell {c}: div(flux) == M (m2 - m1)", eq(bal[c], 0.0))
+    ctx.ensure("reported distance == transport cost (l1_dissipation) of exactly the returned flux", eq(dist, l1(flux)))
+    ctx.ensure("pressure pinned at the reference cell", eq(sol[nf + w.constrained_cell_flat_index], 0.0))
+    if num_iter <= 2 or fault >= 0:
+        ctx.ensure("not reported converged (fewer than three iterations / an inner step failed)", info["converged"] is False)
+    if fault >= 0:
+        ctx.ensure("the fault was injected", st["hit"])
+
+
+@ob("C04.face_weight", cases=lambda tier: [dict(shape=s, mob=m.name, l1=l.name, weighted=wt) for s in ([(3,), (2, 2)] if tier == "quick" else [(3,), (2, 2), (3, 2), (2, 2, 2)])
+                                           for m in MOBILITY for l in (L1_MODES[2:] if tier == "quick" else L1_MODES) for wt in (False, True)],
+    mods=["darsia.measure.wasserstein", "darsia.utils.fv"], stubs=STEP_STUBS, funcs=["darsia.measure.wasserstein:VariationalWassersteinDistance._compute_face_weight",
+    "darsia.measure.wasserstein:VariationalWassersteinDistance.transport_density", "darsia.measure.wasserstein:VariationalWassersteinDistance._harmonic_average",
+    "darsia.measure.wasserstein:VariationalWassersteinDistance._product", "darsia.measure.wasserstein:VariationalWassersteinDistance.cell_weighted_flux"],
+    samples=(2, 4), budget={"timeout_ms": 20000, "paths": 64, "decide_ms": 1500},
+    cite="every solver, discretisation and weighting option (the mobility enters the linear systems only through positive face weights)",
+    note="contract of _compute_face_weight that C04.step assumes: for every flux, every mobility mode and every positive cell weight the face weights are positive and the second "
+         "output is their reciprocal (real code on symbolic fluxes; sqrt over the reals)")
+def c04_face_weight(ctx, shape, mob, l1, weighted):
+    grid, h = grid_of(shape)
+    dim = len(shape)
+    wimg = None
+    if weighted:
+        cw = ctx.array("cw", shape, pos=True, sample=(0.5, 2.0))
+        wimg = darsia.Image(cw, space_dim=dim, scalar=True, dimensions=[shape[k] * h[k] for k in range(dim)])
+    w = solver("newton", grid, base_options(mobility_mode=W.MobilityMode[mob], l1_mode=W.L1Mode[l1], formulation="full"), wimg)
+    nf = int(grid.num_faces)
+    u = ctx.array("u", (nf,), sample=(-1.0, 1.0))
+    fw, fwinv = w._compute_face_weight(u)
+    for i in range(nf):
+        ctx.ensure(f"face {i}: weight positive and second output its reciprocal", and_(fw[i] > 0, eq(fw[i] * fwinv[i], 1.0)))
